@@ -55,13 +55,55 @@ type isoDoc struct {
 	npos      int // calls started on this document (concretisation token)
 }
 
+// isoOrigin is the concretisation of "a document" for this run: "" = document.New(); "tmpl" = rendered
+// from ONE document template shared by every document of the process (WZ_ISO_ORIGIN, set by the driver).
+var isoOrigin = os.Getenv("WZ_ISO_ORIGIN")
+
+var (
+	isoTmplOnce sync.Once
+	isoTmplEng  *document.TemplateEngine
+)
+
+// isoFromTemplate renders a fresh document from the process-wide template. The base document has
+// exactly three document-level relationships (header, two pictures).
+func isoFromTemplate() *document.Document {
+	isoTmplOnce.Do(func() {
+		base := document.New()
+		base.AddParagraph("base {{v}}")
+		_ = base.AddHeader(document.HeaderFooterTypeDefault, "TH")
+		_, _ = base.AddImageFromData(tinyPNG(901), "t1.png", document.ImageFormatPNG, 2, 2, nil)
+		_, _ = base.AddImageFromData(tinyPNG(902), "t2.png", document.ImageFormatPNG, 2, 2, nil)
+		eng := document.NewTemplateEngine()
+		if _, err := eng.LoadTemplateFromDocument("base", base); err == nil {
+			isoTmplEng = eng
+		}
+	})
+	if isoTmplEng != nil {
+		data := document.NewTemplateData()
+		data.SetVariable("v", "x")
+		if d, err := isoTmplEng.RenderTemplateToDocument("base", data); err == nil && d != nil {
+			return d
+		}
+	}
+	fmt.Fprintln(os.Stderr, "iso: cannot render the shared document template")
+	os.Exit(2)
+	return nil
+}
+
 func isoNewDoc(name string) *isoDoc {
-	return &isoDoc{name: name, doc: document.New(), aux: "none", savedProj: []map[string]interface{}{}}
+	d := &isoDoc{name: name, aux: "none", savedProj: []map[string]interface{}{}}
+	if isoOrigin == "tmpl" {
+		d.doc = isoFromTemplate()
+	} else {
+		d.doc = document.New()
+	}
+	return d
 }
 
 type isoExtra struct {
 	Mode   string `json:"mode"`
 	Rounds int    `json:"rounds"`
+	Origin string `json:"origin"` // "" | "tmpl": how the documents of this behaviour come into being
 }
 
 func isoExtraOf(c Case) isoExtra {
@@ -172,6 +214,20 @@ func isoExec(st *isoDoc, op Op) (string, string) {
 		case "AddStyle":
 			d.GetStyleManager().AddStyle(&style.Style{Type: "paragraph", StyleID: "C_" + tok, CustomStyle: true,
 				Name: &style.StyleName{Val: "custom " + tok}, BasedOn: &style.BasedOn{Val: "Normal"}})
+		case "EditStyle":
+			// a predefined style is edited in place through the pointer the style manager hands out
+			if hs := d.GetStyleManager().GetStyle("Heading1"); hs != nil {
+				if hs.RunPr == nil {
+					hs.RunPr = &style.RunProperties{}
+				}
+				if hs.RunPr.FontSize == nil {
+					hs.RunPr.FontSize = &style.FontSize{}
+				}
+				hs.RunPr.FontSize.Val = strconv.Itoa(40 + isoTokInt(tok)%50)
+				if hs.ParagraphPr != nil && hs.ParagraphPr.Spacing != nil {
+					hs.ParagraphPr.Spacing.Before = strconv.Itoa(100 + isoTokInt(tok)%50)
+				}
+			}
 		case "GenerateTOC":
 			cfg := document.DefaultTOCConfig()
 			cfg.Title = "TOC " + tok
@@ -405,9 +461,14 @@ func isoStylesProj(d *document.Document) string {
 	if sm == nil {
 		return "nil"
 	}
+	// id and full definition of every registered style (order-independent)
 	var ids []string
 	for _, s := range sm.GetAllStyles() {
-		ids = append(ids, s.StyleID)
+		def, err := xml.Marshal(s)
+		if err != nil {
+			def = []byte("!marshal")
+		}
+		ids = append(ids, s.StyleID+"="+isoHash(def))
 	}
 	sort.Strings(ids)
 	return fmt.Sprintf("n=%d:%s", len(ids), isoHash([]byte(strings.Join(ids, ","))))
@@ -586,6 +647,7 @@ func isoSoloSpawn(d string, prog []Op) *isoSoloRun {
 	ctx, cancel := context.WithTimeout(context.Background(), 120*time.Second)
 	defer cancel()
 	cmd := exec.CommandContext(ctx, os.Args[0], "isosolo", cf, of)
+	cmd.Env = append(os.Environ(), "WZ_ISO_ORIGIN="+isoOrigin)
 	var se bytes.Buffer
 	cmd.Stderr = &se
 	if err := cmd.Run(); err != nil {
@@ -607,7 +669,7 @@ func isoSoloSpawn(d string, prog []Op) *isoSoloRun {
 
 func isoSoloOf(d string, prog []Op) *isoSoloRun {
 	kj, _ := json.Marshal(prog)
-	key := d + "|" + string(kj)
+	key := isoOrigin + "|" + d + "|" + string(kj)
 	if r, ok := isoSoloMemo[key]; ok {
 		return r
 	}
@@ -666,6 +728,7 @@ func isoViews(names []string, docs map[string]*isoDoc, tab *isoIntern) map[strin
 
 func runIso(c Case, emit Emitter) {
 	x := isoExtraOf(c)
+	isoOrigin = x.Origin
 	names, progs := isoPrograms(c.Steps)
 	emit(Ev{"ev": "reset", "case": c.ID, "mode": x.Mode, "hooks": isoProbeHooks()})
 	tab := newIsoIntern()
